@@ -148,9 +148,16 @@ func cmdRO(n, ln int, out string) {
 				e.opGC(0, 0)
 			}
 		}
+		bgRound := i%8 == 7 && wc
+		if bgRound {
+			// the behaviour with a REAL round of the cache's scheduler / workers: read-only (metabase available), objects
+			// still in the cache, and a switch back to read-write that fails at the metabase before the round
+			roMode = "RO"
+			e.opPut(1+r.Intn(2), 0)
+			e.opPut(5, 0)
+		}
 		e.payOn = true
 		e.opSetMode(roMode, "none")
-		bgRound := i%8 == 7 && wc
 		partial := false
 		for j := 0; j < ln; j++ {
 			a := 1 + r.Intn(w.n())
@@ -167,7 +174,11 @@ func cmdRO(n, ln int, out string) {
 					faults = append(faults, "wc")
 				}
 				d0 := e.digest()
-				e.opSetMode("RW", faults[(i/4)%len(faults)])
+				f := faults[(i/4)%len(faults)]
+				if bgRound {
+					f = "meta"
+				}
+				e.opSetMode("RW", f)
 				e.lastDigests(d0)
 				d0 = e.digest()
 				e.opGC(0, 0)
